@@ -13,7 +13,8 @@ EXTENDS Client, ClientGroups, Json
 
 CONSTANTS ScriptLen,   \* emit a script when it has this many steps
           FaultGate,   \* a fault is injected with probability 1/FaultGate per environment step
-          HoldGate     \* likewise for the start of back-pressure on the transport
+          HoldGate,    \* likewise for the start of back-pressure on the transport
+          AbandonGate  \* likewise for giving a future up before it has returned
 
 VARIABLES script,
           held      \* back-pressure on the transport: "no" | "armed" (the send task may still start one write) | "stuck" (it is inside that write)
@@ -31,6 +32,8 @@ Lbl ==
      ELSE IF ended # {} THEN <<[op |-> "next", h |-> CHOOSE h \in ended : TRUE]>>
      ELSE IF unsubbed # {} THEN <<[op |-> "unsub", h |-> CHOOSE h \in unsubbed : TRUE]>>
      ELSE IF dropped # {} THEN <<[op |-> "drop", h |-> CHOOSE h \in dropped : TRUE]>>
+     ELSE IF \E h \in Ops : fe[h].st # "abandoned" /\ fe'[h].st = "abandoned"
+       THEN <<[op |-> "abandon", h |-> CHOOSE h \in Ops : fe[h].st # "abandoned" /\ fe'[h].st = "abandoned"]>>
      ELSE IF fault' # fault THEN <<[op |-> "fault", f |-> CHOOSE f \in fault' : TRUE]>>
      ELSE IF held = "no" /\ held' = "armed" THEN <<[op |-> "hold"]>>
      ELSE IF held # "no" /\ held' = "no" THEN <<[op |-> "release"]>>
@@ -95,6 +98,7 @@ GStep ==
         \/ StreamPoll /\ UNCHANGED held
         \/ (Gate(3) \/ (held = "stuck" /\ Len(toBack) = MaxQueue)) /\ StreamLeave /\ UNCHANGED held     \* the lost-drop corner: try_send into a full queue
         \/ Gate(FaultGate) /\ FaultNext /\ UNCHANGED held
+        \/ Gate(AbandonGate) /\ AppAbandon /\ UNCHANGED held
         \/ rt = "run" /\ (\E m \in OneText : PeerSend(m)) /\ UNCHANGED held
   \/ /\ held = "no" /\ st = "run" /\ Gate(HoldGate) /\ held' = "armed" /\ UNCHANGED vars
   \/ /\ held # "no" /\ (Gate(8) \/ (held = "stuck" /\ Len(toBack) = MaxQueue /\ Gate(2))) /\ held' = "no" /\ UNCHANGED vars
